@@ -749,9 +749,19 @@ func ruleCoupledHeader(c *Ctx, r *Rep, tier string) {
 							if !ok {
 								return
 							}
-							kx, ky := symKey(bo.X), symKey(bo.Y)
+							kx, ky, op := symKey(bo.X), symKey(bo.Y), bo.Op
+							if ky == I && strings.HasPrefix(kx, "len(") {
+								// len(list) <= id: the same test read from the other side
+								kx, ky = ky, kx
+								if op == token.LEQ {
+									op = token.GEQ
+								}
+							}
+							if strings.HasSuffix(ky, "["+I+"]") && kx == x {
+								kx, ky = ky, kx // item != list[id]
+							}
 							if kx == I && strings.HasPrefix(ky, "len(") {
-								if ky == "len("+cont+")" && (bo.Op == token.GEQ) {
+								if ky == "len("+cont+")" && (op == token.GEQ) {
 									g1 = true
 								} else {
 									g1 = false
@@ -1003,7 +1013,7 @@ func ruleFreshLinks(c *Ctx, r *Rep, tier string) {
 						ok := false
 						if preds != nil {
 							if iff := ifOf(preds[i]); iff != nil {
-								if bo, isBo := iff.Cond.(*ssa.BinOp); isBo && (bo.Op == token.NEQ || bo.Op == token.EQL) && symKey(bo.X) == k+".owner" {
+								if bo, isBo := iff.Cond.(*ssa.BinOp); isBo && (bo.Op == token.NEQ || bo.Op == token.EQL) && (symKey(bo.X) == k+".owner" || symKey(bo.Y) == k+".owner") {
 									yes := 1 // NEQ: false edge means owned
 									if bo.Op == token.EQL {
 										yes = 0
